@@ -1,6 +1,6 @@
 (* Wire entry points of the C18 model (DataSet operation sequences on a store of data sets). *)
 From Coq Require Import ZArith List QArith Qcanon Bool.
-From SG Require Import Base.Sx Base.QcUtil Model.DataSet Model.DataSetOff.
+From SG Require Import Base.Sx Base.QcUtil Model.DataSet Model.DataSetOff Model.DataSetStore.
 Import ListNotations.
 Open Scope Z_scope.
 
@@ -185,74 +185,91 @@ Definition sset2 (st : store2) (h : Z) (d : dso) : store2 := upd (Z.to_nat h) d 
 Definition of_result2 (st : store2) (h : Z) (r : result_o) : store2 * sx :=
   let '(d, e) := r in (sset2 st h d, Lv [sx_bool e; of_dso d]).
 
-Definition step2 (v : variant2) (st : store2) (op : sx) : store2 * sx :=
-  let vo := v_offset v in
+(* wire operation -> operation of the store machine (Model/DataSetStore.v); None: not a store operation (12 same_scaling, 13 resync,
+   16 getters) or malformed *)
+Definition dec_op (op : sx) : option sop :=
+  match op with
+  | Lv (Zv code :: Zv h :: args) =>
+    if h <? 0 then None else
+    let n := Z.to_nat h in
+    match code, args with
+    | 1, [lo; hi; ov] =>
+      match get_Qc lo, get_Qc hi, get_bool ov with Some lo, Some hi, Some ov => Some (SRange n lo hi ov) | _, _, _ => None end
+    | 2, [a; ov] => match get_arg a, get_bool ov with Some a, Some ov => Some (SFactor n a ov) | _, _ => None end
+    | 3, [a; ov] => match get_arg a, get_bool ov with Some a, Some ov => Some (SShift n a ov) | _, _ => None end
+    | 4, [] => Some (SRevert n)
+    | 5, [perm] => match get_Lnat perm with Some perm => Some (SShuffle n perm) | None => None end
+    | 6, [idx] => match get_Lnat idx with Some idx => Some (SMbf n idx) | None => None end
+    | 7, [] => Some (SSplitLabels n)
+    | 8, [p] => match get_Qc p with Some p => Some (SSplitPieces n p) | None => None end
+    | 9, [] => Some (SSplitWL n)
+    | 10, [idx] => match get_LZ idx with Some idx => Some (SRemove n idx) | None => None end
+    | 11, [Zv h2] => if h2 <? 0 then None else Some (SConcat n (Z.to_nat h2))
+    | 14, [] => Some (SCopy n)
+    | 15, [p; idx] => match get_Qc p, get_Lnat idx with Some p, Some idx => Some (SRemoveLabels n p idx) | _, _ => None end
+    | 17, [order] => match get_LZ order with Some order => Some (SOneVsOthers n order) | None => None end
+    | _, _ => None
+    end
+  | _ => None
+  end.
+
+Definition of_ovo_set (s : list (row * Qc)) : sx := Lv [of_LLQc (map fst s); of_LQc (map snd s)].
+
+(* the observation of a store operation: its result (sres) plus the verified-checker bits computed on the state BEFORE the call *)
+Definition obs_of (st : store2) (o : sop) (r : sres) : sx :=
+  match r with
+  | RNoHandle => sx_err 10
+  | RState e d' =>
+    match o with
+    | SMbf h idx =>
+      match nth_error st h with
+      | Some d => Lv [sx_bool e; of_dso d'; sx_bool (same_index_set idx (boundary_idx (base d)))]
+      | None => sx_err 10
+      end
+    | SRemoveLabels h p idx =>
+      match nth_error st h with
+      | Some d => Lv [sx_bool e; of_dso d'; sx_bool (e || labels_idx_ok p idx (base d))]
+      | None => sx_err 10
+      end
+    | _ => Lv [sx_bool e; of_dso d']
+    end
+  | RRaise => Lv [Zv 1]
+  | RSets l =>
+    match o with
+    | SSplitLabels h =>
+      match nth_error st h with
+      | Some d => Lv [Zv 0; of_LZ (distinct_labels (rows (base d))); Lv (map of_dso l)]
+      | None => sx_err 10
+      end
+    | _ => Lv (Zv 0 :: map of_dso l)
+    end
+  | RRemoved d' (Some r') => Lv [Zv 0; of_dso d'; of_dso r']
+  | RRemoved d' None => Lv [Zv 1; of_dso d']
+  | RConcat (CNewO r') => Lv [Zv 0; Zv 0; of_dso r']
+  | RConcat CSelfO => Lv [Zv 0; Zv 1]
+  | RConcat COtherO => Lv [Zv 0; Zv 2]
+  | RConcat CRaiseO => Lv [Zv 1]
+  | ROvo None =>
+    match o with
+    | SOneVsOthers h order => match nth_error st h with Some d => Lv [Zv 1; Lv []; sx_bool (label_order_ok order (base d))] | None => sx_err 10 end
+    | _ => sx_err 1
+    end
+  | ROvo (Some sets) =>
+    match o with
+    | SOneVsOthers h order =>
+      match nth_error st h with Some d => Lv [Zv 0; Lv (map of_ovo_set sets); sx_bool (label_order_ok order (base d))] | None => sx_err 10 end
+    | _ => sx_err 1
+    end
+  end.
+
+(* read-only / harness-directed wire operations that are not operations of the store machine *)
+Definition step_other (v : variant2) (st : store2) (op : sx) : store2 * sx :=
   match op with
   | Lv (Zv code :: Zv h :: args) =>
     match sget2 st h with
     | None => (st, sx_err 10)
     | Some d =>
       match code, args with
-      | 1, [lo; hi; ov] =>
-        match get_Qc lo, get_Qc hi, get_bool ov with
-        | Some lo, Some hi, Some ov => of_result2 st h (scale_range_o vo lo hi ov d)
-        | _, _, _ => (st, sx_err 11)
-        end
-      | 2, [a; ov] =>
-        match get_arg a, get_bool ov with
-        | Some a, Some ov => of_result2 st h (scale_factor_o vo a ov d)
-        | _, _ => (st, sx_err 12)
-        end
-      | 3, [a; ov] =>
-        match get_arg a, get_bool ov with
-        | Some a, Some ov => of_result2 st h (shift_value_o vo a ov d)
-        | _, _ => (st, sx_err 13)
-        end
-      | 4, [] => of_result2 st h (revert_o vo d)
-      | 5, [perm] =>
-        match get_Lnat perm with
-        | Some perm => of_result2 st h (shuffle_o perm d)
-        | None => (st, sx_err 15)
-        end
-      | 6, [idx] =>
-        match get_Lnat idx with
-        | Some idx =>
-          let '(d', e) := mbf_o idx d in
-          (sset2 st h d', Lv [sx_bool e; of_dso d'; sx_bool (same_index_set idx (boundary_idx (base d)))])
-        | None => (st, sx_err 16)
-        end
-      | 7, [] =>
-        if update_internal_raises (base d) && negb (is_empty (base d)) then (st, Lv [Zv 1]) else
-        let ps := split_labels_o d in
-        (st ++ ps, Lv [Zv 0; of_LZ (distinct_labels (rows (base d))); Lv (map of_dso ps)])
-      | 8, [p] =>
-        match get_Qc p with
-        | Some p => if update_internal_raises (base d) then (st, Lv [Zv 1]) else
-                    let '(a, b) := split_pieces_o p d in (st ++ [a; b], Lv [Zv 0; of_dso a; of_dso b])
-        | None => (st, sx_err 18)
-        end
-      | 9, [] => if update_internal_raises (base d) then (st, Lv [Zv 1]) else
-                 let '(a, b) := split_without_labels_o d in (st ++ [a; b], Lv [Zv 0; of_dso a; of_dso b])
-      | 10, [idx] =>
-        match get_LZ idx with
-        | Some idx =>
-          match remove_samples_o v idx d with
-          | (d', Some r) => (sset2 st h d' ++ [r], Lv [Zv 0; of_dso d'; of_dso r])
-          | (d', None) => (sset2 st h d', Lv [Zv 1; of_dso d'])
-          end
-        | None => (st, sx_err 20)
-        end
-      | 11, [Zv h2] =>
-        match sget2 st h2 with
-        | Some d2 =>
-          match concatenate_o v d d2 with
-          | CNewO r => (st ++ [r], Lv [Zv 0; Zv 0; of_dso r])
-          | CSelfO => (st, Lv [Zv 0; Zv 1])
-          | COtherO => (st, Lv [Zv 0; Zv 2])
-          | CRaiseO => (st, Lv [Zv 1])
-          end
-        | None => (st, sx_err 10)
-        end
       | 12, [Zv h2] =>
         match sget2 st h2 with
         | Some d2 => (st, match same_scaling (v_base v) (base d) (base d2) with Some b => Lv [Zv 0; sx_bool b] | None => Lv [Zv 1] end)
@@ -263,15 +280,6 @@ Definition step2 (v : variant2) (st : store2) (op : sx) : store2 * sx :=
         | Some d' => (sset2 st h d', Lv [Zv 0])
         | None => (st, sx_err 23)
         end
-      | 14, [] => (st ++ [copy_o d], Lv [Zv 0; of_dso (copy_o d)])
-      | 15, [p; idx] =>    (* remove_labels: (raised, state, the index list is an admissible rnd.sample result) *)
-        match get_Qc p, get_Lnat idx with
-        | Some p, Some idx =>
-          if update_internal_raises (base d) then (st, Lv [Zv 1; of_dso d; Zv 1]) else
-          let d' := remove_labels_o p idx d in
-          (sset2 st h d', Lv [Zv 0; of_dso d'; sx_bool (labels_idx_ok p idx (base d))])
-        | _, _ => (st, sx_err 25)
-        end
       | 16, [] =>          (* getters: (min max length labels number_labels has_labelless is_empty) *)
         (st, Lv [of_optrow (data_min (values (base d))); of_optrow (data_max (values (base d))); Zv (Z.of_nat (get_length (base d)));
                  of_LZ (get_labels_sorted (base d)); Zv (Z.of_nat (get_number_labels (base d))); sx_bool (has_labelless (base d));
@@ -280,6 +288,13 @@ Definition step2 (v : variant2) (st : store2) (op : sx) : store2 * sx :=
       end
     end
   | _ => (st, sx_err 2)
+  end.
+
+(* one wire operation: the store evolves by sstep_res of Model/DataSetStore.v - the machine of the history theorems *)
+Definition step2 (v : variant2) (st : store2) (op : sx) : store2 * sx :=
+  match dec_op op with
+  | Some o => let '(st', r) := sstep_res v st o in (st', obs_of st o r)
+  | None => step_other v st op
   end.
 
 Fixpoint run2 (v : variant2) (st : store2) (ops : list sx) : list sx :=
